@@ -564,6 +564,7 @@ type SliceOpts struct {
 	MaxDepth   int
 	ThroughArg func(c *ssa.CallCommon) []ssa.Value // which args a call result derives from (nil: none)
 	Stop       func(v ssa.Value) bool              // do not look behind v
+	NoAggregates bool                              // do not look into locally built arrays/structs
 	// Before: when set, field/var loads only consider stores that can reach this instruction.
 }
 
@@ -641,7 +642,30 @@ func backSlice(v ssa.Value, opt SliceOpts) []ssa.Value {
 					walk(a, d+1)
 				}
 			}
-		case *ssa.MakeSlice, *ssa.MakeMap, *ssa.MakeChan, *ssa.Alloc, *ssa.Const, *ssa.Parameter, *ssa.Global, *ssa.Function, *ssa.MakeClosure, *ssa.Next, *ssa.Range, *ssa.Select:
+		case *ssa.Alloc:
+			// a locally built aggregate derives from what is stored into its elements / fields
+			if !opt.NoAggregates {
+				if fn := x.Parent(); fn != nil {
+					fam := familyOf(fn)
+					for _, in := range fam.allInstr {
+						st, ok := in.(*ssa.Store)
+						if !ok {
+							continue
+						}
+						switch a := st.Addr.(type) {
+						case *ssa.IndexAddr:
+							if a.X == ssa.Value(x) {
+								walk(st.Val, d+1)
+							}
+						case *ssa.FieldAddr:
+							if a.X == ssa.Value(x) {
+								walk(st.Val, d+1)
+							}
+						}
+					}
+				}
+			}
+		case *ssa.MakeSlice, *ssa.MakeMap, *ssa.MakeChan, *ssa.Const, *ssa.Parameter, *ssa.Global, *ssa.Function, *ssa.MakeClosure, *ssa.Next, *ssa.Range, *ssa.Select:
 		}
 	}
 	walk(v, 0)
